@@ -11,6 +11,7 @@ import Driver.GeoHandlers
 import Driver.OrdHandlers
 import Driver.TorusHandlers
 import Driver.MeasHandlers
+import Driver.TxnHandlers
 open DM
 
 def optIntTok : Option Int → String
@@ -116,6 +117,7 @@ def dispatch (c : Case) : Res :=
   | "hull" => runHull c
   | "qry" => runQry c
   | "hil" => runHil c
+  | "txn" => runTxn c
   | "meas" => runMeas c
   | "wrap" => runWrap c
   | "torus" => runTorus c
